@@ -170,7 +170,7 @@ func c01Scenario(r *vx.Rand) {
 	if r.Chance(35) {
 		stores = 3
 	}
-	w := hub.NewWorld(rec, hub.Options{Seed: r.U64(), Splits: pick(r, layoutsOf(nRegions)), Stores: stores})
+	w := hub.NewWorld(rec, hub.Options{Full: lean, Seed: r.U64(), Splits: pick(r, layoutsOf(nRegions)), Stores: stores})
 	defer w.Close()
 	for _, k := range keys {
 		w.TrackKey(k)
